@@ -34,6 +34,7 @@ var truthLeaves = map[string]tvLeaf{
 	"0": {false, "number"}, "(0*-1)": {false, "number"}, "0.0": {false, "number"}, "0e3": {false, "number"}, "fnan2": {false, "number"},
 	"finf": {true, "number"}, "fninf": {true, "number"}, "1": {true, "number"}, "(-1)": {true, "number"}, "0.5": {true, "number"}, "1.50": {true, "number"}, "1e-30": {true, "number"}, "izero": {false, "number"}, "fzero": {false, "number"}, "fnan": {false, "number"},
 	"''": {false, "string"}, "es": {false, "string"}, "'0'": {true, "string"}, "' '": {true, "string"}, "'a'": {true, "string"}, "'false'": {true, "string"}, "'x'": {true, "string"},
+	"this.izero": {false, "number"}, "this.es": {false, "string"}, "this.m": {true, "other"},
 	"[]": {true, "other"}, "[0]": {true, "other"}, "[1]": {true, "other"}, "m": {true, "other"}, "em": {true, "other"}, "st": {true, "other"}, "t": {true, "other"}, "len": {true, "other"}, "fn0": {true, "other"}, "earr": {true, "other"}, "t2": {true, "other"}, "t0": {true, "other"},
 }
 
@@ -59,11 +60,47 @@ type mval struct {
 	B      bool
 }
 
+// truthFlipped selects the second data set, in which every data NAME holds a value of the opposite truthiness
+// (literals keep their meaning). It is what lets one parsed tree be evaluated with different data.
+var truthFlipped bool
+
+var flippedLeaves = map[string]tvLeaf{
+	"np": {true, "other"}, "nn": {true, "string"}, "izero": {true, "number"}, "fzero": {true, "number"}, "fnan": {true, "number"}, "fnan2": {true, "number"},
+	"finf": {false, "number"}, "fninf": {false, "number"}, "es": {true, "string"},
+	"m": {false, "null"}, "em": {false, "null"}, "st": {false, "null"}, "t": {false, "null"}, "t2": {false, "null"}, "t0": {false, "null"}, "fn0": {false, "null"}, "earr": {false, "string"},
+	"this.izero": {true, "number"}, "this.es": {true, "string"}, "this.m": {false, "null"},
+}
+
 func (v mval) meaning() tvLeaf {
 	if v.IsBool {
 		return tvLeaf{v.B, "bool"}
 	}
+	if truthFlipped {
+		if m, ok := flippedLeaves[v.Leaf]; ok {
+			return m
+		}
+	}
 	return truthLeaves[v.Leaf]
+}
+
+func truthSpecFlipped() map[string]spec.V {
+	s := truthSpec()
+	one := 1
+	_ = one
+	s["np"] = spec.V{K: "pstruct", M: map[string]spec.V{"Name": {K: "string", S: "p"}}}
+	s["nn"] = spec.V{K: "string", S: "x"}
+	s["izero"] = spec.V{K: "int", S: "7"}
+	s["fzero"] = spec.V{K: "float64", S: "2.5"}
+	s["fnan"] = spec.V{K: "float64", S: "1.5"}
+	s["fnan2"] = spec.V{K: "float64", S: "-3"}
+	s["finf"] = spec.V{K: "float64", S: "0"}
+	s["fninf"] = spec.V{K: "int", S: "0"}
+	s["es"] = spec.V{K: "string", S: "s"}
+	for _, k := range []string{"m", "em", "st", "t", "t2", "t0", "fn0"} {
+		s[k] = spec.V{K: "nil"}
+	}
+	s["earr"] = spec.V{K: "string", S: ""}
+	return s
 }
 
 type truthModel struct {
@@ -224,18 +261,45 @@ func normalizeDeep(v interface{}) interface{} {
 }
 
 func checkTruth(c truthCase) (msg string, unspec bool) {
-	model := &truthModel{store: map[string]mval{}}
-	want := model.eval(c.Tree)
-	if model.unspec {
-		return "", true
-	}
 	text := c.Tree.Text()
 	p := obs.Parse([]byte("[" + text + "]"))
 	if !p.OK() {
 		return fmt.Sprintf("HARNESS: %q does not parse: %v", text, p.Err), false
 	}
+	// the SAME parsed tree is evaluated with the first data set, with the flipped one, and with the first again
+	for round, flipped := range []bool{false, true, false} {
+		m, u := checkTruthOnce(c, p.Src.Expression, text, flipped)
+		if u {
+			return "", round == 0
+		}
+		if m != "" {
+			if round > 0 {
+				m = fmt.Sprintf("(evaluation %d of the same parsed tree, data set flipped=%v) %s", round+1, flipped, m)
+			}
+			return m, false
+		}
+	}
+	return "", false
+}
+
+func checkTruthOnce(c truthCase, expr formula.Expression, text string, flipped bool) (msg string, unspec bool) {
+	truthFlipped = flipped
+	defer func() { truthFlipped = false }()
+	model := &truthModel{store: map[string]mval{}}
+	want := model.eval(c.Tree)
+	if model.unspec {
+		return "", true
+	}
 	rec := &spec.Recorder{}
-	data := spec.BuildMap(truthSpec(), rec)
+	sp := truthSpec()
+	if flipped {
+		sp = truthSpecFlipped()
+	}
+	data := spec.BuildMap(sp, rec)
+	p := struct {
+		Src struct{ Expression formula.Expression }
+	}{}
+	p.Src.Expression = expr
 	r := formula.NewRunner()
 	r.SetThis(data)
 	out := obs.Eval(r, context.Background(), p.Src.Expression)
